@@ -1284,6 +1284,58 @@ func genWaitHoles(prop string, seed uint64, tier string) *Scenario {
 	return &Scenario{Knobs: genKnobs(r), Sched: genSched(r, seed), Body: raw, MaxSimS: 3000}
 }
 
+// genTickRace: 3-8 keys, each with a client of its own (in-memory: no transport delay) that takes the key
+// on a full second with a term of 1-3 s and sends its next request exactly on the second in which the
+// server's sweeper picks that hold up (or one second earlier): an update or re-lock to terms of another
+// kind (seconds, milliseconds, minutes, unlimited, unlimited with a unit flag), or an unlock. Whether the
+// request or the sweeper comes first is the scheduler's choice; either way the hold ends by its new terms
+// or by the unlock, never by the old deadline once it has been renewed (C06).
+func genTickRace(prop string, seed uint64, tier string) *Scenario {
+	r := ssched.Sub(seed, "gen")
+	n := 3 + r.Intn(6)
+	body := &CoreBody{NKeys: n, NLids: 2, Profile: "tick-race", Dbs: []int{0}}
+	for i := 0; i < n; i++ {
+		E := 1 + r.Intn(3)
+		ops := []OpSpec{{Cmd: 1, Key: i, Lid: 0, Count: 0, Rcount: 3, Expried: uint16(E)}}
+		at := (E + 1) * 1000
+		if r.Intn(4) == 0 {
+			at -= 1000
+		}
+		var o OpSpec
+		switch r.Intn(8) {
+		case 0:
+			o = OpSpec{Cmd: 2, Key: i, Lid: 0}
+		case 1:
+			o = OpSpec{Cmd: 1, Key: i, Lid: 0, Count: 0, Rcount: 3, Expried: uint16(2 + r.Intn(4))} // a further level, new term
+		default:
+			o = OpSpec{Cmd: 1, Key: i, Lid: 0, Flag: protocol.LOCK_FLAG_UPDATE_WHEN_LOCKED, Count: 0, Rcount: 3}
+			switch r.Intn(6) {
+			case 0:
+				o.Expried = uint16(2 + r.Intn(5))
+			case 1:
+				o.Expried, o.EFlag = uint16(500+r.Intn(6000)), efMs
+			case 2:
+				o.Expried, o.EFlag = 1, efMinute
+			case 3:
+				o.Expried, o.EFlag = uint16(r.Intn(9)), efUnlim
+			case 4:
+				o.Expried, o.EFlag = uint16(500+r.Intn(20000)), efUnlim|efMs
+			default:
+				o.Expried, o.EFlag = uint16(1+r.Intn(3)), efUnlim|efMinute
+			}
+		}
+		o.DelayMs = at
+		ops = append(ops, o)
+		if r.Intn(3) == 0 {
+			// somebody waits for the key meanwhile
+			ops = append(ops, OpSpec{Cmd: 1, Key: i, Lid: 1, Count: 0, Timeout: uint16(1 + r.Intn(6)), Expried: 1, DelayMs: 0})
+		}
+		body.Clients = append(body.Clients, ClientSpec{Kind: "mem", StartMs: 1000 * (1 + r.Intn(2)), Ops: ops})
+	}
+	raw, _ := json.Marshal(body)
+	return &Scenario{Knobs: genKnobs(r), Sched: genSched(r, seed), Body: raw, MaxSimS: 3000}
+}
+
 // genQueueMigrate: one exclusive key; behind its holder 150-300 plain requests queue one after the
 // other (the queue spills from its inline slots into the ring), then one or two requests with the
 // priority flag arrive (the queue is rebuilt as a priority ring), then the key is released again
